@@ -1350,6 +1350,64 @@ def corr_detect(ctx, R):
             return
 
 
+def corr_size_resize(ctx, R):
+    """config.size against Prep/Resize.v size_of (whole and fractional numbers with every suffix), and the resize block of
+    prepare_image on real files: never shrunk, grown with zeros to exactly the requested size, the old content in place"""
+    import nobodd.config as C
+    import nobodd.prep as P
+    import argparse, logging
+    rng = ctx.rng
+    sfx = ['', 'B', 'KB', 'MB', 'GB', 'TB']
+    cases = []
+    for k, sx in enumerate(sfx):
+        for mant in (0, 1, 7, 16, 512, 1000, 65536, 10 ** 12):
+            cases.append((mant, 0, k))
+        if k >= 2:
+            for mant, frac in ((15, 1), (25, 2), (1, 3), (1, 4), (125, 3), (9999, 4), (1, 12), (333, 2), (5, 1), (1024, 5)):
+                cases.append((mant, frac, k))
+    for _ in range(300):
+        k = rng.randrange(6)
+        cases.append((rng.randrange(0, 10 ** rng.randint(1, 9)), rng.choice([0, 0, 1, 2, 5]) if k >= 2 else 0, k))
+    model = R.batch('size_of', [list(c) for c in cases], chunk=200) if R is not None else [None] * len(cases)
+    for (mant, frac, k), m in zip(cases, model):
+        digits = str(mant)
+        if frac:
+            digits = digits.rjust(frac + 1, '0')
+            text = digits[:-frac] + '.' + digits[-frac:]
+        else:
+            text = digits
+        text += sfx[k]
+        try:
+            got = C.size(text)
+        except Exception as e:          # noqa: BLE001
+            got = type(e).__name__
+        want = mant * 2 ** (10 * [0, 0, 1, 2, 3, 4][k]) // 10 ** frac
+        ctx.case(('size', text), True, 'size-' + (sfx[k] or 'plain') + ('-fraction' if frac else ''))
+        if got != want or (m is not None and m != got):
+            ctx.violation('prep.size/model-mismatch', f'config.size({text!r}) = {got}; exact value rounded down {want}; the model {m}', dict(api='size', text=text))
+            return
+    # the resize block, on real files
+    tmp = tempfile.mkdtemp(prefix='c17r-')
+    try:
+        for cur, req in ((0, 0), (0, 1), (1, 0), (5000, 5000), (5000, 4999), (5000, 5001), (4096, 70000), (70000, 4096), (1, 1 << 20)):
+            path = Path(tmp) / f'img-{cur}-{req}'
+            content = bytes(rng.getrandbits(8) | 1 for _ in range(cur))
+            path.write_bytes(content)
+            conf = argparse.Namespace(image=path, size=req, logger=logging.getLogger('c17-resize'), boot_partition=1)
+            try:
+                P.prepare_image(conf)
+            except Exception:           # noqa: BLE001 -- the rest of prepare_image needs a real disk image; the resize is done first
+                pass
+            after = path.read_bytes()
+            ctx.case(('resize', cur, req), True, 'resize')
+            if len(after) != max(cur, req) or after[:cur] != content or any(after[cur:]):
+                ctx.violation('prep.resize/statement', f'an image of {cur} bytes prepared with size {req}: now {len(after)} bytes (expected {max(cur, req)}), '
+                              f'old content in place: {after[:cur] == content}, added bytes zero: {not any(after[cur:])}', dict(api='resize', cur=cur, req=req))
+                return
+    finally:
+        shutil.rmtree(tmp, ignore_errors=True)
+
+
 def run(ctx, build):
     warnings.simplefilter('ignore')
     import locale
@@ -1372,6 +1430,7 @@ def run(ctx, build):
         corr_rewrite(ctx, R)
         corr_rglob_order(ctx)
         corr_detect(ctx, R)
+        corr_size_resize(ctx, R)
         oracle_e2e(ctx, R)
         if broken is not None:
             raise broken
